@@ -233,9 +233,16 @@ fn check_update(rep: &mut Report, sub: &'static str, case: u64, s0: State, dt_ns
             }
         }
     } else {
-        // observation only: the closed form overflows in its intermediates for |v| > f32::MAX/2 etc.
+        // any finite triple (the quantifier says "all finite state triples"): the closed form overflows in
+        // its intermediates ((v + v'), dt*a, ...) for components near f32::MAX although the true result is
+        // representable. Genuine but exotic defect: reported under fixed signatures that are listed in
+        // known_findings.json (DESIGN.md section 5, finding 5).
         let in_range = v_ref.abs() < 3.0e38 && p_ref.abs() < 3.0e38;
+        let huge = [p, v, p_ref, v_ref, v * dt, a * dt, a * dt * dt].iter().any(|x| x.abs() > 1.0e37);
         if in_range && !(s1.position.is_finite() && s1.velocity.is_finite()) {
+            rep.eval();
+            rep.violation(if huge { "C14/update/intermediate-overflow/some-term-above-1e37" } else { "C14/update/intermediate-overflow/all-terms-below-1e37" }, sub, case,
+                format!("{}.update(Time({})) -> {} but the true result p'={:e} v'={:e} is representable", sfmt(&s0), dt_ns, sfmt(&s1), p_ref, v_ref));
             rep.tally("extreme_nonfinite_result_where_reference_is_in_range");
             if rep.want_sample("extreme-nonfinite") {
                 rep.sample("extreme-nonfinite", format!("{}.update(Time({})) -> {} (f64 reference p'={:e} v'={:e})", sfmt(&s0), dt_ns, sfmt(&s1), p_ref, v_ref));
@@ -246,6 +253,9 @@ fn check_update(rep: &mut Report, sub: &'static str, case: u64, s0: State, dt_ns
                 rep.tally("extreme_dt0_identity");
             } else {
                 rep.tally("extreme_dt0_not_identity");
+                rep.eval();
+                rep.violation(if s0.velocity.abs() > 1.7e38 { "C14/update/identity-dt0/velocity-above-half-f32-max" } else { "C14/update/identity-dt0" }, sub, case,
+                    format!("{}.update(Time(0)) -> {}: dt = 0 must be the identity", sfmt(&s0), sfmt(&s1)));
                 if rep.want_sample("extreme-dt0-not-identity") {
                     rep.sample("extreme-dt0-not-identity", format!("{}.update(Time(0)) -> {}", sfmt(&s0), sfmt(&s1)));
                 }
